@@ -46,6 +46,8 @@ WORKLOADS = {
     "bulk": ("w_bulk.cpp", ()),
     "find_if": ("w_bulk.cpp", ()),
     "stream": ("w_stream.cpp", ()),
+    "any_object": ("w_erase.cpp", ()),
+    "any_unique": ("w_erase.cpp", ()),
 }
 
 PROPS = {
@@ -312,5 +314,28 @@ PROPS = {
                     "sender of the harness source), next/cleanup_adapt_stream, the manual consumer calling cleanup() without next()."),
         real=["reduce_stream", "transform_stream, filter_stream, adapt_stream/next_adapt_stream", "take_until", "stop_immediately", "type_erased_stream (+any_scheduler)", "on_stream"],
         stub=["scripted source streams and gates (kit/gate.hpp)", "pthread layer, heap (usim)"],
+    ),
+    "C18": dict(
+        title="Type-erased wrappers behave exactly like the object they wrap",
+        batches=[
+            B("w_erase.cpp", "any_object", quick=6, thorough=90, oracles=["c18."] + RT_ALL),
+            B("w_erase.cpp", "any_unique", quick=3, thorough=45, oracles=["c18."] + RT_ALL),
+            B("w_expr.cpp", "expr", quick=10, thorough=150, params="faults=1,wrap=1", oracles=["c18.", "c05.outcome", "c01.", "c04.child-not-stopped", "c04.started-after-stop", "c12.query"] + RT_LIVE),
+            B("w_stream.cpp", "stream", quick=5, thorough=60, oracles=["c13.", "c01."] + RT_LIVE),
+        ],
+        level_text=("(b) Seeded operation sequences on three basic_any_object<24,8,RequireNoexceptMove,...> wrappers (both settings) and any_unique "
+                    "wrappers: in-place construction from small / large(heap) / throwing-move / over-aligned tracked types, value assignment, "
+                    "wrapper move-assignment (incl. self), move-construction, invocation of a type-erased CPO, destruction, with a throwing k-th "
+                    "move and failing allocations, against a reference model (one optional id per wrapper): the CPO answer equals the wrapped "
+                    "object's, each held id has exactly one live object, nothing is ever copied, every object and moved-from remainder is "
+                    "destroyed exactly once, misaligned storage is flagged, exceptions propagate and leave both wrappers destructible; arena "
+                    "double-free/leak checks. (a) any_sender_of<> inserted as an identity node at random positions of the sender interpreter "
+                    "(wrap=1): completions equal the wrapped sender's (c18.transparent), a stop request reaches the wrapped leaves through the "
+                    "adapted token (C04 leaf oracles), the wrapper forwards exactly its declared query set (C12 oracle: only the stop token); "
+                    "type_erased_stream is an identity node in two of the C13 pipelines (same oracles as C13)."),
+        level_note=("Honest scope: (b) has no concurrency or time in it; what this family contributes is seeded op+fault sequences against a model, "
+                    "the poisoned arena and replay/shrinking. Not driven: any_ref, any_scheduler/any_scheduler_ref equality, swap."),
+        real=["basic_any_object (inline and heap storage, invalid_obj parking)", "any_unique", "any_sender_of<> (+inplace_stop_token_adapter_subscription)", "type_erased_stream"],
+        stub=["tracked wrapped types", "heap with injected bad_alloc (usim arena)"],
     ),
 }
